@@ -189,3 +189,33 @@ def catalogue():
         if os.path.isdir(p):
             out.append((f"site/{name}", p, size))
     return out
+
+
+def abstract_inplace(root_path):
+    """The tree below root_path exactly as it is on disk (nothing left out, nothing copied) - for scans that somebody
+    else makes of a real directory (the repository's own test-suite).  Non-Python files are irrelevant to the model and
+    are not listed.  Raises RenderError for trees outside the input language."""
+    root_path = os.path.abspath(str(root_path))
+    root = os.path.basename(root_path)
+    dirs, files, stmts = [[root]], [], []
+    for dp, dns, fns in os.walk(root_path):
+        rel = [] if dp == root_path else os.path.relpath(dp, root_path).split(os.sep)
+        dns.sort()
+        for d in dns:
+            if "." in d or os.path.islink(os.path.join(dp, d)):
+                raise pj.RenderError(f"directory name outside the input language: {d}")
+            dirs.append([root] + rel + [d])
+        for fn in sorted(fns):
+            stem, ext = os.path.splitext(fn)
+            if ext != ".py":
+                continue
+            if "." in stem or stem in dns:
+                raise pj.RenderError(f"file name outside the input language: {fn}")
+            name = [root] + rel + [stem]
+            with open(os.path.join(dp, fn)) as fh:
+                sts = extract(fh.read())
+            if any(s["level"] >= len(name) for s in sts):
+                raise pj.RenderError(f"relative import above the root in {fn}")
+            files.append({"name": name, "py": True})
+            stmts += [{"file": name, **s} for s in sts]
+    return {"root": root, "dirs": dirs, "files": files, "stmts": stmts}
